@@ -350,6 +350,33 @@ def limit_cases(res, base, k):
                       f'golden runs: {out!r}', witness)
 
 
+def orphan_case(res, base):
+    """Parallel ddmin: 'erase xx' succeeds while 'erase yy' hangs on another
+    worker, and the rest of the run is shorter than the limit.  Whatever the
+    strategy does with results it no longer needs, the hanging command has
+    to be killed before ddSMT leaves."""
+    n = 18
+    lines = ['(assert xx)', '(assert keep0)', '(assert yy)'] + [
+        f'(assert keep{i})' for i in range(1, n)]
+    text = '\n'.join(lines) + '\n'
+    allkeep = 'has:keep0'
+    for i in range(1, n):
+        allkeep += f' has:keep{i} &'
+    rules = [realrun.rule(f'{allkeep} !', 0, 'ok\n', ''),
+             realrun.rule('has:xx has:yy ! &', 0, '', '', fault='sleep'),
+             realrun.rule('all', 1, 'bug\n', '', delay_us=300000)]
+    opts = ['--strategy', 'ddmin', '-j', '4', '--timeout', '8']
+    run = realrun.run_ddsmt(os.path.join(base, 'orphan'), text, rules,
+                            opts=opts,
+                            launcher={'monitors': ['check', 'exec']},
+                            timeout=300)
+    res.count('orphan_cases')
+    judge(res, run, 8, {'case': 'success-while-another-candidate-hangs',
+                        'input': text, 'rules': rules, 'fault': 'sleep',
+                        'strategy': 'ddmin', 'jobs': 4, 'timeout': 8,
+                        'opts': opts}, golden_fault=None)
+
+
 def golden_cc_cases(res, base):
     """The same rule for the cross-check command's golden run."""
     text = ('(declare-const a Int)\n(declare-const b Int)\n'
@@ -384,8 +411,10 @@ def shard(args):
             golden_cc_cases(res, base)
         if 2 <= args['shard'] < 8:
             golden_timeout_case(res, base, args['shard'] - 2)
-        if args['shard'] >= 8:
+        if 8 <= args['shard'] < 15:
             limit_cases(res, base, args['shard'] - 8)
+        if args['shard'] == 15:
+            orphan_case(res, base)
         for i in range(args['n']):
             text, rules, opts, limit, desc = make_case(r)
             wd = os.path.join(base, f'run{i}')
